@@ -637,6 +637,19 @@ def c14(ctx):
             viols.append(V("C14", "outside-window-raises", sc, "weather outside the window makes the run raise", error=r2.error))
         elif not tables_equal(base, r2):
             viols.append(V("C14", "outside-window", sc, "weather records outside the window change the results", diff=first_diff(base, r2)))
+        # (b') records missing outside the window (a gap before the start, another after the end):
+        # inside the window the table is complete, so nothing may change
+        if len(padL) > 6 and len(padR) > 6:
+            gl = padL.drop(padL.index[[2, 3, len(padL) - 2]])
+            gr = padR.drop(padR.index[[1, len(padR) - 3]])
+            w3 = pd.concat([gl, inside, gr], ignore_index=True)
+            o3 = S.build_objects(sc); o3["weather_df"] = w3
+            r3 = run_full(objects=o3)
+            evals += 1; nontriv += 1
+            if r3.error:
+                viols.append(V("C14", "outside-gap-raises", sc, "missing records outside the window make the run raise", error=r3.error))
+            elif not tables_equal(base, r3):
+                viols.append(V("C14", "outside-gap", sc, "missing records outside the window change the results", diff=first_diff(base, r3)))
         # (c) extending the end date keeps completed seasons
         lo, hi = (S.STATIONS[sc["weather"]["name"]] if sc["weather"]["kind"] == "file" else (sc["weather"]["start"], sc["weather"]["end"]))
         ext_days = int(rng.choice([20, 90, 200]))
